@@ -372,6 +372,56 @@ fn qlaws_ev<T: StratNum>(case: &Value, out: &mut Vec<Value>) {
         Value::Object(res)
     };
     let base_res = run(&lane, &rm);
+    // ONE object, one call per (strategy, q) in sequence: every call leaves the lane permuted, so each later call is a
+    // call on a permutation of the same data and must return what the first one would have
+    let seq_res = {
+        let mut res = serde_json::Map::new();
+        let mut failed: Vec<&str> = Vec::new();
+        let mut st = Strided::new(&lane, stride, 1, |_| lane[0].clone());
+        for &s in STRATS {
+            let mut vals = Vec::new();
+            for &q in &qv {
+                verif_hooks::set_script(vec![], fb);
+                let r = guarded(|| { let mut v = st.view_mut(); one_d_single(&mut v, n64(q), s) });
+                verif_hooks::take_log();
+                match r { Ok(Ok(x)) => vals.push(rank2_of(&rm, &x)), _ => { if !failed.contains(&s) { failed.push(s); } } }
+            }
+            res.insert(s.to_string(), json!(vals));
+        }
+        res.insert("failed".to_string(), json!(failed));
+        Value::Object(res)
+    };
+    // the NaN-skipping form on ONE f64 object holding the same values plus NaNs, again call after call
+    let skip_res = if T::NAME == "n64" && case.get("nanpos").is_some() {
+        let mut data: Vec<f64> = lane.iter().map(|x| x.to_f64().unwrap()).collect();
+        let mut pos = jints(&case["nanpos"]);
+        pos.sort();
+        for (k, p) in pos.iter().enumerate() { data.insert((*p as usize + k).min(data.len()), f64::NAN); }
+        let mut st = Strided::new(&data, stride, 1, |_| 0.25f64);
+        let mut res = serde_json::Map::new();
+        let mut failed: Vec<&str> = Vec::new();
+        for &s in STRATS {
+            let mut vals = Vec::new();
+            for &q in &qv {
+                verif_hooks::set_script(vec![], fb);
+                let r = guarded(|| { let mut v = st.view_mut(); match s {
+                    "lower" => v.quantile_axis_skipnan_mut(Axis(0), n64(q), &Lower),
+                    "higher" => v.quantile_axis_skipnan_mut(Axis(0), n64(q), &Higher),
+                    "nearest" => v.quantile_axis_skipnan_mut(Axis(0), n64(q), &Nearest),
+                    "midpoint" => v.quantile_axis_skipnan_mut(Axis(0), n64(q), &Midpoint),
+                    _ => v.quantile_axis_skipnan_mut(Axis(0), n64(q), &Linear),
+                } });
+                verif_hooks::take_log();
+                match r {
+                    Ok(Ok(x)) if !x.iter().next().unwrap().is_nan() => vals.push(rank2_of(&rm, &T::from_f64(*x.iter().next().unwrap()).unwrap())),
+                    _ => { if !failed.contains(&s) { failed.push(s); } }
+                }
+            }
+            res.insert(s.to_string(), json!(vals));
+        }
+        res.insert("failed".to_string(), json!(failed));
+        Some(Value::Object(res))
+    } else { None };
     let permuted: Vec<T> = perm.iter().map(|&k| lane[k].clone()).collect();
     let perm_res = run(&permuted, &rm);
     // relabelled copy: the r-th smallest distinct raw value becomes relabel[r]
@@ -387,7 +437,9 @@ fn qlaws_ev<T: StratNum>(case: &Value, out: &mut Vec<Value>) {
         Some(mx) if T::SIGNED_INT => { let s = proj_vals(&lane, bexp); (*s.iter().max().unwrap() as i128 - *s.iter().min().unwrap() as i128) > mx }
         _ => false,
     };
-    out.push(json!({"ev": "qlaws", "ty": T::NAME, "n": n, "lane": ranks_of(&rm, &lane).iter().map(|r| 2 * r).collect::<Vec<_>>(),
+    let hasskip = skip_res.is_some();
+    let skip_res = skip_res.unwrap_or_else(|| seq_res.clone());
+    out.push(json!({"ev": "qlaws", "ty": T::NAME, "n": n, "seq": seq_res, "skip": skip_res, "hasskip": hasskip, "lane": ranks_of(&rm, &lane).iter().map(|r| 2 * r).collect::<Vec<_>>(),
         "qs": qi, "qord": qv.windows(2).all(|w| w[0] <= w[1]), "res": base_res, "perm": perm_res, "rel": rel_res,
         "isfloat": T::NAME == "n64", "wide": wide, "big": bexp > 51}));
 }
@@ -558,8 +610,11 @@ pub fn gen(seed: u64, count: usize, tier: &str, params: &Params) -> Vec<Value> {
                 let ok = match ty { "i8" => relabel.iter().all(|&v| (-128..=127).contains(&v)), "u8" => relabel.iter().all(|&v| (0..=255).contains(&v)),
                                     "u64" => bexp >= 0 || relabel.iter().all(|&v| v >= 0), _ => true };
                 let relabel = if ok { relabel } else { distinct.clone() };
-                cases.push(json!({"ev": "qlaws", "ty": ty, "lane": lane, "bexp": bexp, "qs": specs.into_iter().map(|x| x.1).collect::<Vec<_>>(),
-                                  "perm": perm, "relabel": relabel, "stride": *rng.pick(&[1, 1, 2, -1]), "fb": fb}));
+                let nanpos: Vec<i64> = (0..rng.range(1, 4)).map(|_| rng.range(0, n as i64)).collect();
+                let mut c = json!({"ev": "qlaws", "ty": ty, "lane": lane, "bexp": bexp, "qs": specs.into_iter().map(|x| x.1).collect::<Vec<_>>(),
+                                  "perm": perm, "relabel": relabel, "stride": *rng.pick(&[1, 1, 2, -1]), "fb": fb});
+                if ty == "n64" { c["nanpos"] = json!(nanpos); }
+                cases.push(c);
             }
         }
     }
